@@ -52,6 +52,12 @@ MUTANTS = {
     "no_worker_reseed": (["C11"], [("pyvolutionary/helpers.py",
                                     "        else parallel.ProcessPoolExecutor(n_workers, initializer=_reseed_worker)\n",
                                     "        else parallel.ProcessPoolExecutor(n_workers)\n")]),
+    "unknown_mode_falls_back": (["C06"], [("pyvolutionary/abstract.py",
+                                           '                raise ValueError("Invalid mode. Possible values are \\"serial\\", \\"thread\\" and \\"process\\"")\n',
+                                           '                self._mode = ModeSolver.SERIAL\n')]),
+    "max_cycles_one_divides": (["C06"], [("pyvolutionary/particle_swarm/particle_swarm_optimization.py",
+                                          "        c1 = self._config.c1\n",
+                                          "        c1 = self._config.c1 * (1 - 1 / (self._config.max_cycles - 1))\n")]),
     "config_written": (["C09"], [("pyvolutionary/abstract.py", "        self.before_initialization()\n",
                                   "        self._config.fitness_error = self._config.fitness_error or 0.0\n        self.before_initialization()\n")]),
     "task_written_on_error": (["C09"], [("pyvolutionary/abstract.py",
@@ -69,8 +75,8 @@ MUTANTS = {
     "seed_ignored": (["C07"], [("pyvolutionary/abstract.py", "        np.random.seed(task.seed)\n",
                                 "        np.random.seed(None)\n")]),
     "cycle_counter_not_reset": (["C08"], [("pyvolutionary/abstract.py",
-                                           "        self._current_cycle = 1\n        self._errors = []\n",
-                                           "        self._errors = []\n")]),
+                                           "from scratch\n        self._current_cycle = 1\n",
+                                           "from scratch\n")]),
     "pool_result_lost": (["C10", "C11"], [("pyvolutionary/helpers.py",
                                            "    for i in parallel.as_completed(executors):\n        res.append(i.result())\n    return res\n",
                                            "    for i in parallel.as_completed(executors):\n        res.append(i.result())\n"
@@ -110,6 +116,8 @@ def apply(d, edits):
         s = open(p).read()
         if s.count(old) < 1:
             raise RuntimeError(f"mutant text not found in {rel}: {old[:60]!r}")
+        if s.count(old) > 1 and rel.endswith("abstract.py"):
+            raise RuntimeError(f"mutant text is ambiguous in {rel}: {old[:60]!r}")
         s = s.replace(old, new)
         open(p, "w").write(s)
 
